@@ -28,6 +28,7 @@ import (
 	"fmt"
 	"math/big"
 	"math/rand"
+	"net/http"
 	"path/filepath"
 	"sort"
 	"strings"
@@ -36,6 +37,7 @@ import (
 	"github.com/iden3/go-iden3-crypto/constants"
 	"github.com/iden3/go-merkletree-sql/v2"
 	"github.com/iden3/go-merkletree-sql/v2/db/memory"
+	"github.com/iden3/go-schema-processor/v2/loaders"
 	"github.com/iden3/go-schema-processor/v2/merklize"
 	"github.com/piprate/json-gold/ld"
 
@@ -659,6 +661,21 @@ func (d *drv) replaceLeaves(doc *docgen.Doc, hi int, base *obs) {
 		return
 	}
 	rng := d.rng
+	// machine-word boundaries on integer-typed leaves (one per document in quick, up to 3 in thorough)
+	var ints []docgen.Leaf
+	for _, lf := range doc.Leaves {
+		if (lf.Kind == "int-string" || lf.Kind == "int-native") && !hasIndex(lf.DocPath) {
+			ints = append(ints, lf)
+		}
+	}
+	rng.Shuffle(len(ints), func(i, j int) { ints[i], ints[j] = ints[j], ints[i] })
+	nSweep := d.cfg.Pick(1, 3)
+	if doc.Features["int-doc"] {
+		nSweep = len(ints)
+	}
+	for i := 0; i < len(ints) && i < nSweep; i++ {
+		d.boundarySweep(doc, hi, ints[i])
+	}
 	for _, lf := range doc.Leaves {
 		lf := lf
 		// (i) different canonical encoding -> different root
@@ -774,6 +791,92 @@ func (d *drv) nearMisses(doc *docgen.Doc, hi int, base *obs, lf docgen.Leaf) {
 	}
 }
 
+// boundaryInts: integers around machine-word boundaries (and a few small ones), allowed
+// by the XSD integer type dt.
+func boundaryInts(dt string) []*big.Int {
+	pow := func(n uint) *big.Int { return new(big.Int).Lsh(big.NewInt(1), n) }
+	add := func(z *big.Int, d int64) *big.Int { return new(big.Int).Add(z, big.NewInt(d)) }
+	pos := []*big.Int{big.NewInt(1), big.NewInt(2), pow(31), add(pow(31), -1), pow(32), add(pow(32), -1), pow(53), add(pow(53), 1),
+		add(pow(63), -1), pow(63), add(pow(63), 1), add(pow(64), -1), pow(64), add(pow(64), 1), pow(65)}
+	var out []*big.Int
+	neg := dt != xsd+"positiveInteger" && dt != xsd+"nonNegativeInteger"
+	po := dt != xsd+"negativeInteger" && dt != xsd+"nonPositiveInteger"
+	if neg && po || dt == xsd+"nonNegativeInteger" || dt == xsd+"nonPositiveInteger" {
+		out = append(out, big.NewInt(0))
+	}
+	for _, z := range pos {
+		if po {
+			out = append(out, z)
+		}
+		if neg {
+			out = append(out, new(big.Int).Neg(z))
+		}
+	}
+	return out
+}
+
+// boundarySweep: one integer-typed leaf takes every boundary value in turn (written as a
+// string; exactly representable ones also as JSON numbers): all accepted documents must have
+// pairwise DIFFERENT roots (different integers have different encodings: C04 / C03_value_binding_int),
+// and the string and number spellings of one value the same root.  Some of the variant
+// datasets go to the Coq tree model, which computes the encoding exactly.
+func (d *drv) boundarySweep(doc *docgen.Doc, hi int, lf docgen.Leaf) {
+	if hasIndex(lf.DocPath) {
+		return // keep D21 (sibling renumbering through lexical forms) out of this oracle
+	}
+	vals := boundaryInts(lf.Fact.Datatype)
+	roots := map[string]string{} // root -> value
+	docs := map[string]string{}
+	nTree := 0
+	for _, z := range vals {
+		obj, err := parseDoc(doc.Bytes)
+		if err != nil {
+			return
+		}
+		sl, sib, ok := nav(obj, lf.DocPath)
+		if !ok || sib != 1 {
+			return
+		}
+		sl.set(z.String())
+		v, _ := json.Marshal(obj)
+		o, _, ds := d.observe(v, hi)
+		d.rep.Count("boundary-int:" + o.Class)
+		if o.Class != "ok" {
+			continue
+		}
+		if prev, dup := roots[o.Root]; dup {
+			d.fail(fmt.Sprintf("the integer field at %v holding %s and holding %s gives the same root", lf.DocPath, prev, z),
+				failInput{Kind: "pair-diff", Class: "c03-value-unbound", Doc: docs[prev], Other: string(v), Hasher: hi, Leaf: &lf, Siblings: 1, Note: "boundary " + prev + " vs " + z.String()})
+			return
+		}
+		roots[o.Root] = z.String()
+		docs[z.String()] = string(v)
+		if z.IsInt64() && new(big.Int).Abs(z).BitLen() <= 53 {
+			sl.set(json.RawMessage(z.String()))
+			v2, _ := json.Marshal(obj)
+			o2, _, _ := d.observe(v2, hi)
+			if o2.Class != "ok" || o2.Root != o.Root {
+				d.fail(fmt.Sprintf("the integer %s at %v written as a JSON number and as a string gives different results", z, lf.DocPath),
+					failInput{Kind: "pair-same", Class: "c03-spelling", Doc: string(v), Other: string(v2), Hasher: hi, Leaf: &lf, Siblings: 1})
+				return
+			}
+		}
+		if ds != nil && z.BitLen() >= 63 && nTree < d.cfg.Pick(3, 8) && d.rng.Intn(3) == 0 {
+			nTree++
+			d.treeCase(ds, hi, failInput{Kind: "doc-dataset", Doc: string(v), Hasher: hi, Note: "boundary-int"}, o.Root, 1)
+		}
+	}
+}
+
+func hasIndex(path []string) bool {
+	for _, s := range path {
+		if len(s) > 0 && s[0] >= '0' && s[0] <= '9' {
+			return true
+		}
+	}
+	return false
+}
+
 func jsonOf(v any) string {
 	b, _ := json.Marshal(v)
 	return string(b)
@@ -804,10 +907,36 @@ func (d *drv) docCase(doc *docgen.Doc, hi int, nRepeat int) {
 	d.metamorphic(doc, hi, base)
 	d.repeat(doc.Bytes, hi, base, nRepeat)
 	d.givenTree(doc.Bytes, hi, base)
+	d.remoteContext(doc, hi, base)
 	d.replaceLeaves(doc, hi, base)
 	if d.rng.Intn(10) == 0 {
 		d.rep.Sample(map[string]any{"doc": string(doc.Bytes), "root": base.Root, "entries": len(base.Entries), "hasher": hi})
 	}
+}
+
+// intDoc: one single-valued string-typed property per XSD integer type.
+func (d *drv) intDoc() *docgen.Doc {
+	V := docgen.Vocab
+	ctx := map[string]any{"T": V + "T"}
+	obj := map[string]any{"@type": "T", "@id": fmt.Sprintf("urn:int:%d", d.rng.Intn(100000))}
+	var leaves []docgen.Leaf
+	for i, t := range []string{"integer", "positiveInteger", "nonNegativeInteger", "negativeInteger", "nonPositiveInteger"} {
+		term := fmt.Sprintf("i%d", i)
+		dt := docgen.XSD + t
+		ctx[term] = map[string]any{"@id": V + term, "@type": dt}
+		v := int64(1 + d.rng.Intn(1000))
+		if i >= 3 {
+			v = -v
+		}
+		raw := fmt.Sprint(v)
+		obj[term] = raw
+		leaves = append(leaves, docgen.Leaf{DocPath: []string{term}, Raw: raw, Kind: "int-string",
+			Fact: docgen.Fact{Pattern: V + term, Value: "int:" + raw, Datatype: dt}})
+	}
+	obj["@context"] = ctx
+	doc := &docgen.Doc{Obj: obj, Leaves: leaves, Features: map[string]bool{"int-doc": true}, Expect: "ok"}
+	doc.Bytes, _ = json.Marshal(obj)
+	return doc
 }
 
 // multiGraphDoc: several @graph containers whose members all hang under the same
@@ -1307,6 +1436,46 @@ func (d *drv) replay(path string) error {
 			in.Class = class
 			d.fail("equivalent documents give different results: "+diff, in)
 		}
+	case "ctx-url":
+		var nt struct {
+			URL, Alt, Ctx, Altctx string
+			Variant               ctxVariant
+		}
+		if err := json.Unmarshal([]byte(in.Note), &nt); err != nil {
+			return err
+		}
+		h := http.Header{}
+		if nt.Variant.CT != "" {
+			h.Set("Content-Type", nt.Variant.CT)
+		}
+		if nt.Variant.CC != "" {
+			h.Set("Cache-Control", nt.Variant.CC)
+		}
+		switch nt.Variant.Link {
+		case "alternate":
+			h.Set("Link", fmt.Sprintf(`<%s>; rel="alternate"; type="application/ld+json"`, nt.Alt))
+		case "alternate-relative":
+			h.Set("Link", `<ctx-alt.jsonld>; rel="alternate"; type="application/ld+json"`)
+		case "context":
+			h.Set("Link", fmt.Sprintf(`<%s>; rel="http://www.w3.org/ns/json-ld#context"; type="application/ld+json"`, nt.Alt))
+		}
+		tr := &stubTransport{docs: map[string]served{
+			nt.URL: {body: []byte(nt.Ctx), header: h},
+			nt.Alt: {body: []byte(nt.Altctx), header: http.Header{"Content-Type": []string{"application/ld+json"}}},
+		}, hits: map[string]int{}}
+		ldr := loaders.NewDocumentLoader(nil, "", loaders.WithHTTPClient(&http.Client{Transport: tr}))
+		a, _, _ := d.observe([]byte(in.Other), in.Hasher)
+		show("document (context as generated)", a)
+		mz, mo := mzrun.Merklize([]byte(in.Doc), merklize.WithHasher(d.hs[in.Hasher]), merklize.WithDocumentLoader(ldr))
+		got := "error: " + mo.Msg
+		if mo.Class == "ok" {
+			got = mz.Root().BigInt().String()
+		}
+		fmt.Printf("replay: context by URL (Content-Type %q, Link %s): %s\n", nt.Variant.CT, nt.Variant.Link, got)
+		followAlt := strings.HasPrefix(nt.Variant.Link, "alternate") && !isJSONType(mediaType(nt.Variant.CT))
+		if !followAlt && (mo.Class != "ok" || got != a.Root) {
+			d.fail("context by URL through the library's loader differs from the same context inline: "+got+" vs "+a.Root, in)
+		}
 	case "pair-diff":
 		a, _, _ := d.observe([]byte(in.Doc), in.Hasher)
 		b, _, _ := d.observe([]byte(in.Other), in.Hasher)
@@ -1403,6 +1572,11 @@ func Run(cfg *common.Config) (*common.Report, error) {
 			n = 1000
 		}
 		add(func(t *drv) { t.docCase(doc, hi, n) })
+	}
+	// small documents with one single-valued property of every XSD integer type (boundary sweeps)
+	for i := 0; i < cfg.Pick(4, 30); i++ {
+		hi := i % 2
+		add(func(t *drv) { t.docCase(t.intDoc(), hi, 50) })
 	}
 	// documents that must be rejected / odd shapes: the OUTCOME must be as stable as a root
 	for i := 0; i < cfg.Pick(6, 60); i++ {
